@@ -5,6 +5,7 @@ import (
 	"fmt"
 	"strings"
 	"time"
+	_ "time/tzdata"
 
 	"github.com/beevik/etree"
 	saml2 "github.com/russellhaering/gosaml2"
@@ -28,6 +29,18 @@ var c15Clocks = []struct {
 	{"-08:00-before-local-midnight", time.Date(2030, 1, 1, 23, 59, 59, 0, time.FixedZone("PST", -8*3600))},
 	{"sub-second", world.T0.Add(750 * time.Millisecond)},
 	{"-04:00-dst-zone", time.Date(2030, 7, 1, 1, 30, 0, 999999999, time.FixedZone("EDT", -4*3600))},
+	// a location that observes daylight saving time, a few days before each transition
+	// (calendar arithmetic in local time is then off by an hour)
+	{"new-york-before-spring-forward", time.Date(2030, 3, 7, 12, 0, 0, 0, nyc())},
+	{"new-york-before-fall-back", time.Date(2030, 10, 30, 12, 0, 0, 0, nyc())},
+}
+
+func nyc() *time.Location {
+	l, err := time.LoadLocation("America/New_York")
+	if err != nil {
+		panic(err)
+	}
+	return l
 }
 
 // string inputs, by index
